@@ -93,6 +93,11 @@ pub struct RunCfg {
     /// requests): only progress, panics and the pipeline balance are
     #[serde(default)]
     pub no_values: bool,
+    /// CPU affinity of the simulation thread for this run (1 or 2 CPUs):
+    /// the engine sizes its chunks of parallel work from
+    /// `available_parallelism()`
+    #[serde(default)]
+    pub cpus: Option<u32>,
 }
 
 #[derive(Clone, Debug, PartialEq, Eq, Hash, Serialize, Deserialize)]
